@@ -310,3 +310,9 @@ def r10(c):
 def r11(c):
     from rules import c08
     c08.r3(c)
+
+
+@rule('C02', 'R02.12', 'after a frame the framing layer rejected nothing more is decoded from that connection: a framing error ends the session (C05/R05.5)')
+def r12(c):
+    from rules import c05
+    c05.r5(c)
